@@ -15,8 +15,11 @@ build_variant() {
   if [ ! -x "$ROOT/bin/instr" ] || [ "$ROOT/cmd/instr/main.go" -nt "$ROOT/bin/instr" ]; then
     go build -o "$ROOT/bin/instr" ./cmd/instr 2>"$ROOT/.work/build.log" || { cat "$ROOT/.work/build.log" >&2; return 2; }
   fi
-  "$ROOT/bin/instr" "$v" "$ROOT/.work/ov-$v" >"$ROOT/.work/instr-$v.log" 2>&1 || { cat "$ROOT/.work/instr-$v.log" >&2; return 2; }
-  go build -overlay "$ROOT/.work/ov-$v/overlay.json" -o "$out" ./cmd/vcheck 2>"$ROOT/.work/build.log"
+  # "race" is the sched overlay compiled with the Go race detector (free-running cross-check of C16)
+  local ov="$v" flags=""
+  [ "$v" = race ] && { ov=sched; flags="-race"; }
+  "$ROOT/bin/instr" "$ov" "$ROOT/.work/ov-$v" >"$ROOT/.work/instr-$v.log" 2>&1 || { cat "$ROOT/.work/instr-$v.log" >&2; return 2; }
+  go build $flags -overlay "$ROOT/.work/ov-$v/overlay.json" -o "$out" ./cmd/vcheck 2>"$ROOT/.work/build.log"
   local rc=$?
   if [ $rc -ne 0 ]; then
     echo "BUILD FAILED variant=$v (infrastructure, not a violation):" >&2
@@ -30,14 +33,14 @@ build_plain() { build_variant plain; }
 variants_of() {
   case "$1" in
     C03|C04|C05|C07|C12|C19|C01|C02) echo b3 ;;
-    C16) echo sched ;;
+    C16) echo sched race ;;
   esac
 }
 
 case "${1:-}" in
   setup)
     build_plain || exit 2
-    for v in b3 sched; do build_variant $v || exit 2; done
+    for v in b3 sched race; do build_variant $v || exit 2; done
     echo "setup ok"
     ;;
   replay)
